@@ -33,6 +33,21 @@ def main() -> int:
             if a.replay:
                 return rx_check.replay(a.prop, a.replay)
             return rx_check.run_check(a.prop, a.tier)
+        if a.prop == "C15":
+            from engine import sch_check
+            if a.replay:
+                return sch_check.replay(a.prop, a.replay)
+            return sch_check.run_check(a.prop, a.tier)
+        if a.prop == "C16":
+            from engine import common, lbl_check, sch_check
+            if a.replay:
+                import json
+                kind = json.load(open(a.replay)).get("kind")
+                return lbl_check.replay(a.replay) if kind == "label" else sch_check.replay("C16", a.replay)
+            rep = common.Reporter("C16")
+            part = lbl_check.run_part(a.tier, rep)
+            rc = sch_check.run_check("C16", a.tier, extra=part)
+            return max(rc, rep.exit_code())
         if a.prop in ("C13", "C14"):
             from engine import calc_check
             if a.replay:
